@@ -119,7 +119,7 @@ impl CatchGradualPerformance {
     pub fn nth(&mut self, state: CatchScoreState, n: usize) -> Option<CatchPerformanceAttributes> {
         let performance = self
             .difficulty
-            .nth(n)?
+            .nth_clamped(n)?
             .performance()
             .state(state)
             .difficulty(self.difficulty.difficulty.clone())
